@@ -295,6 +295,9 @@ def _node(el):
     return el._Element__element
 
 
+STATE_INVARIANTS = {"checked": 0, "unavailable": 0}
+
+
 def check_coherence(t, rng, doc=None):
     """L (live answers) vs F (fresh parse of the serialisation) vs X (independent expansion),
     plus the cache-map / cached-wrapper invariants.  -> [(mechanism, detail)]"""
@@ -356,26 +359,34 @@ def check_coherence(t, rng, doc=None):
         cols_el = tabxml.column_elements(live_el)
         exp_t = _expected_map([tabxml._rep(r, tabxml.REP_ROWS) for r in rows_el])
         exp_c = _expected_map([tabxml._rep(c, tabxml.REP_COLS) for c in cols_el])
-        if list(t._tmap) != exp_t:
-            out.append(("map:_tmap-stale", {"map": list(t._tmap), "xml": exp_t}))
-        if list(t._cmap) != exp_c:
-            out.append(("map:_cmap-stale", {"map": list(t._cmap), "xml": exp_c}))
-        for idx, w in list(t._indexes.get("_tmap", {}).items()):
+        # (the anchored private state: judged when the implementation has it, the behavioural comparisons
+        # above do not depend on it)
+        indexes = getattr(t, "_indexes", None)
+        if not (hasattr(t, "_tmap") and hasattr(t, "_cmap") and isinstance(indexes, dict)):
+            STATE_INVARIANTS["unavailable"] += 1
+            indexes = {}
+        else:
+            STATE_INVARIANTS["checked"] += 1
+            if list(t._tmap) != exp_t:
+                out.append(("map:_tmap-stale", {"map": list(t._tmap), "xml": exp_t}))
+            if list(t._cmap) != exp_c:
+                out.append(("map:_cmap-stale", {"map": list(t._cmap), "xml": exp_c}))
+        for idx, w in list(indexes.get("_tmap", {}).items()):
             if w is None:
                 continue
             if idx >= len(rows_el) or _node(w) is not rows_el[idx]:
                 out.append(("cache:row-wrapper-orphan", {"idx": idx, "nrows": len(rows_el)}))
                 continue
             exp_r = _expected_map([tabxml._rep(c, tabxml.REP_COLS) for c in tabxml.cell_elements(rows_el[idx])])
-            if list(w._rmap) != exp_r:
+            if hasattr(w, "_rmap") and list(w._rmap) != exp_r:
                 out.append(("cache:row-wrapper-rmap-stale", {"idx": idx, "map": list(w._rmap), "xml": exp_r}))
             cells_el = tabxml.cell_elements(rows_el[idx])
-            for cidx, cw in list(w._indexes.get("_rmap", {}).items()):
+            for cidx, cw in list((getattr(w, "_indexes", None) or {}).get("_rmap", {}).items()):
                 if cw is None:
                     continue
                 if cidx >= len(cells_el) or _node(cw) is not cells_el[cidx]:
                     out.append(("cache:cell-wrapper-orphan", {"row": idx, "idx": cidx}))
-        for idx, w in list(t._indexes.get("_cmap", {}).items()):
+        for idx, w in list(indexes.get("_cmap", {}).items()):
             if w is None:
                 continue
             if idx >= len(cols_el) or _node(w) is not cols_el[idx]:
